@@ -206,6 +206,136 @@ AREAS["C02"] = {
                   "callback goroutines) cannot be exhibited by the model",
 }
 
+AREAS["C18"] = {'area': 'c18',
+ 'id': 18,
+ 'coq': ['Base',
+         'Modbus/Regs.v',
+         'Modbus/Pdu.v',
+         'Modbus/PduSpec.v',
+         'Modbus/C18Check.v',
+         'Modbus/BitsProofs.v',
+         'Modbus/PduProofs.v',
+         'Modbus/Legacy.v',
+         'Properties/C18.v'],
+ 'rule': 'seeded generator: register files built through AddReg/WriteReg/AddRegValueValidator (empty; sparse: 1-6 registers anywhere incl. 0, '
+         '4095/4096, 65535; dense: one or two blocks of 1-140 registers, optionally wrapping past 65535 or with a hole; validators from the family '
+         'none / v<k / even / reject-all on none, 1 in 30 or 1 in 3 registers), one request each: function codes 1,2,3,4,5,6,15,16 with addresses on '
+         'and around the mapped blocks and quantities from the limit tables (0,1,..,123-128,1967-1969,1999-2001,2032/2033,2040/2041,32768,65535; '
+         'clipped to the block half of the time), write payloads with right / off-by-one length and right / wrong byte count, truncated and '
+         'over-long variants, unsupported and invalid function codes (incl. 22,23,24, >=0x80), random bytes; plus a fixed small-scope sweep (3 maps '
+         'x FC1-6 x 9 addresses x 7 quantities). A case is non-trivial when the function code is one of the eight served and the request is long '
+         'enough to be parsed; distinct by SHA-1 of (register file, fc, data)',
+ 'trusted': ["model of PDU.ProcessRequest and Regs: coq/theories/Modbus/Pdu.v, Regs.v (hand-written, tied by this run's correspondence)",
+             'specification of the protocol behaviour: coq/theories/Modbus/PduSpec.v (hand-written from MODBUS Application Protocol V1.1b3)'],
+ 'level_text': 'proof: C18_total (no panic, no hypothesis on register file, function code or data), C18_conforms (model = protocol specification for '
+               'every well-formed register file, function code and data) and C18_exception_no_change are Coq theorems about the executable model of '
+               "PDU.ProcessRequest/Regs with Go's uint16/byte arithmetic and bounds checks explicit; the model and the specification are both run "
+               'against the real ProcessRequest on >7000 generated requests per run (outcome class, regsChanged, response bytes, register file '
+               'afterwards) and must agree on every one',
+ 'level_note': 'trusted: Coq kernel, extraction, OCaml driver, the Go harness; validators are Go closures, modelled by the enumerated family the '
+               "harness installs; the register file is observed through ReadReg on the added addresses; server.go's Listen loop is covered by C19, "
+               'not here; requests run in a child process under an 8 GiB address-space cap',
+ 'assumptions': ['register files are those reachable through AddReg/AddCoil (distinct 16-bit addresses, 16-bit values)',
+                 'reading decisions of the specification: a request shorter than the minimum for its function code is rejected without an answer '
+                 '(also for the unimplemented codes 22-24); bytes after the 4 data bytes of FC 1-6 are ignored and echoed by FC 5/6; FC 15/16 keep '
+                 'the writes made before a refusal']}
+
+AREAS["C19"] = {'area': 'c19',
+ 'id': 19,
+ 'coq': ['Base',
+         'Modbus/Regs.v',
+         'Modbus/Pdu.v',
+         'Modbus/PduSpec.v',
+         'Modbus/BitsProofs.v',
+         'Modbus/PduProofs.v',
+         'Modbus/RtuCrc.v',
+         'Modbus/Frames.v',
+         'Modbus/Client.v',
+         'Modbus/Conv.v',
+         'Modbus/C19Check.v',
+         'Modbus/ClientProofs.v',
+         'Modbus/ConvProofs.v',
+         'Modbus/Legacy19.v',
+         'Properties/C19.v'],
+ 'rule': 'seeded generator, four streams. sessions: a modbus.Client and a modbus.Server.Listen joined by an in-memory duplex that delivers whole '
+         'packets (RTU: pipe-like io.ReadWriteCloser; TCP: net.Pipe behind net.Conn wrappers), register file of one or two blocks (1..130 registers, '
+         'some with validators) or a few scattered registers, unit ids incl. 0, 247, 255 and calls to a foreign unit, 1-5 calls each (ReadCoils, '
+         'ReadDiscreteInputs, ReadHoldingRegs, ReadInputRegs, WriteSingleCoil, WriteSingleReg) with counts from 1 to 2000 / 125 at every alignment '
+         '(uniform, boundary table, small) plus refused counts (0, 2001, 126, 32768, 65535), reads of what was just written, TCP transaction ids '
+         'after 0..256 and 65534/65535 warm-up exchanges (wrap), and in one call of seven one damaged or lost frame in either direction (RTU: bit / '
+         'byte / 16-bit burst, truncation below 4 bytes; TCP: transaction id, truncation below 9 bytes, payload byte); conversions: all 13 functions '
+         'of data.go, both directions, special bit patterns (NaNs, infinities, extremes); the exported RespReadBits on arbitrary PDUs; '
+         'Transport.Encode / Decode on arbitrary PDUs and on well-formed, damaged, truncated and random packets in both roles. A session is '
+         'non-trivial when a call returned more than one value or a successful write was followed by another call; other cases when their input is '
+         'non-empty; distinct by SHA-1 of the inputs',
+ 'trusted': ['model of client.go, server.go (Listen iteration), rtu.go, tcp.go, crc.go, data.go and the response decoders: '
+             "coq/theories/Modbus/{Client,Frames,RtuCrc,Conv}.v (hand-written, tied by this run's correspondence)",
+             "specification used on the implementation's outputs: coq/theories/Modbus/C19Check.v (own bit-serial CRC-16/MODBUS, own frame layouts, "
+             'register-file view and protocol specification of PduSpec.v)'],
+ 'level_text': 'proof: C19_read_agrees (every read, every register file, count and address, RTU and TCP with any transaction id incl. wrap: exactly '
+               'the addressed values, exactly count of them, error when the server must refuse), C19_write_then_read, C19_write_reports, '
+               'C19_frames_rejected (round trips; short, bad-CRC and wrong-transaction-id frames rejected; rejected requests change nothing) and '
+               'C19_conv_inverse are Coq theorems about the executable model of client, server loop, framing, CRC and conversions, resting on '
+               'C18_conforms for the server; the model and an independent executable specification are run against the real Client/Server/transports '
+               'on about 1500 client-server exchanges and 3000 codec / conversion cases per run and must agree on every frame and result',
+ 'level_note': 'trusted: Coq kernel, extraction, OCaml driver, the Go harness and its in-memory duplex (whole-packet delivery, a lost or unanswered '
+               "request surfaces as a Read error); not modelled: timing, respreader, real serial ports and sockets, TCPServer's accept loop, "
+               'ascii.go; the CRC theorems are about the modelled RtuCrc (no claim about which error patterns it detects); that it is the '
+               'CRC-16/MODBUS is checked on every frame of every run against an independent bit-serial definition and anchored by the serial-line '
+               "specification's example frame",
+ 'assumptions': ['the transport hands over whole packets: one Write is received by one Read (what NewClient/NewServer require)',
+                 'register files are those reachable through AddReg/AddCoil; client and server use the same framing',
+                 'float32 values are compared as bit patterns (Float32frombits/Float32bits are the identity on them on this platform)']}
+
+AREAS["C09"] = {'area': 'c09',
+ 'id': 9,
+ 'coq': ['Base', 'Store', 'Auth', 'Properties/C09.v'],
+ 'rule': 'seeded generator, three kinds of case, every instance with its own random auth token and on random free ports. http: one request against '
+         'an instance (light = embedded NATS server with the token + store.NewStore + the real api.NewAppHandler behind httptest; full = the real '
+         'server.NewServer(...).Run()): 9 methods (GET POST PUT DELETE PATCH HEAD OPTIONS, lower case, unknown) x 33 path shapes (every node route, '
+         'trailing and doubled slashes, dot and dot-dot segments into, inside and out of /v1/nodes, /v1/auth, public paths, wrong case, wrong '
+         'prefix) x 34 Authorization values (absent, empty, the token, token + suffix, proper prefix, other case, token twice, Bearer + token, '
+         'Basic, Bearer + token obtained from a real POST /v1/auth, Bearer + freshly minted HS256 token for several jti, two spaces / tab / trailing '
+         'field, lower-case scheme, no scheme, expired by 2 s / 1 h / 1 year minted with the instance key read from the database file, signed with '
+         'another key / the empty key, alg none, HS384, HS512, truncated, one signature character changed, payload replaced, header replaced by alg '
+         'none, signature removed, two parts, garbage, scheme only, two Authorization headers) x bodies (well formed for the route, broken JSON, '
+         'empty, wrong JSON type): a sweep of every header value over ten routes and of every method x path without credentials, with the token and '
+         'with a bearer token, plus random combinations; a witness connection subscribed to p.>, nodes.>, node.>, up.>, auth.> records what each '
+         'request causes on the bus. bus: nats.Connect to the real server without a token, with the token, and with 7 near misses, followed by a '
+         'request. login: 6 fixed and 40 random histories of user placements on a fresh instance (groups nested up to 3 deep, 1-3 users, some with '
+         'the same e-mail and the same or another password, a user without credential points; then moves, mirrors, deletions and re-additions of '
+         'users and of the groups above them, credential changes, duplication), after every step a dump of every edge and one log-in per known '
+         'credential pair, near miss and the empty pair through auth.user, POST /v1/auth and, with the token obtained, GET /v1/nodes. A case is '
+         'non-trivial when it is an http case with a token configured and a header other than absent / the token, a bus case, or a login case with '
+         'more than 2 steps; distinct by SHA-1 of the inputs',
+ 'trusted': ['model of App/V1/Nodes.ServeHTTP (routing, gate, route table), Key.Valid, userCheck, GetNodesForUser: coq/theories/Auth/Model.v '
+             "(hand-written, tied by this run's correspondence: status class and first bus subject of every request, the node list, token owner and "
+             'HTTP status of every log-in, every listing)',
+             'the verdict of golang-jwt (HS256 under the instance key, exp, string jti) enters model and specification as the table of bearer tokens '
+             'that are valid by construction (issued by a real log-in, or minted by the harness with the instance key and a future exp); every other '
+             'token of a case is invalid by construction',
+             'store model coq/theories/Store/Model.v (edges, rows, store_of_views) as for C01-C06'],
+ 'level_text': 'proof (partial): C09_gate, C09_gate_exact, C09_gate_absent, C09_valid_served (for every method, path, header and body a client call '
+               'other than the log-in happens only behind the gate, the gate passes exactly the configured token and Bearer + a token the JWT '
+               'verdict accepts, everything else on the node handler is 401 without any call), C09_login_iff / C09_login_sound (userCheck returns '
+               'somebody exactly when a user node with these credentials has a path of non-deleted edges to the root, for every acyclic store), '
+               'C09_listing_sound / C09_listing_edges and C09_bus are Coq theorems about the executable model; the model is run against real '
+               'instances (light and the full server) on >3000 requests, connections and log-ins per run and must agree on each, and the '
+               "specification (credentials presented or not; a connected matching user exists or not; listing inside the user's subtrees) is "
+               'evaluated on the observed statuses, bus traffic and dumps',
+ 'level_note': "partial: HMAC-SHA256 / JWT parsing and expiry (golang-jwt), the NATS server's own token check and TLS are exercised by the harness "
+               '(forged, expired, re-signed, truncated tokens; connections with wrong tokens), not proved - in the theorems the JWT verdict is a '
+               'parameter; trusted: Coq kernel, extraction, OCaml driver, Go harness, net/http, SQLite, NATS; header values are ASCII '
+               '(strings.Fields is modelled for ASCII white space); C09_current_refuted records that the pinned checkUserPathRoot (before the fix) '
+               'violated C09_login_iff',
+ 'assumptions': ['edge tombstone points are those the clients write: key "0", value 0 or 1 (then the three deletion tests of the code - IsTombstone, '
+                 'the != 0 test of checkUserPathRoot, the parity test of up() - agree; hypothesis tomb_consistent)',
+                 'the store is well formed: acyclic (guaranteed by C05), distinct edge rows; no node is called root, all or none',
+                 'all edges into a node carry the same node type; the e-mail / password of a user are the texts of its points email / pass with key '
+                 '0, a missing point reads as the empty string (as the code does)',
+                 "a bearer token is valid iff it was issued by this instance's key with HS256, a string jti and an exp in the future; tokens without "
+                 'exp or with a non-string jti are not generated']}
+
 WIP = "not yet built in this round; the design (DESIGN.md section 6) claims it and the check is being added"
 NOT_CLAIMED = {pid: WIP for pid in ["C%02d" % i for i in range(1, 21)] if pid not in AREAS}
 HOOK_COMMITS = ["6f869d9", "e935e32"]
